@@ -146,7 +146,8 @@ def forms_for(importer_pkg_depth):
     for level in range(1, importer_pkg_depth + 1):
         dots = "." * level
         forms += [(f"rel{level}-name", f"from {dots} import a"), (f"rel{level}-sub", f"from {dots}pkg import m"),
-                  (f"rel{level}-func", f"from {dots} import helper"), (f"rel{level}-deep", f"from {dots}deep import z, w")]
+                  (f"rel{level}-func", f"from {dots} import helper"), (f"rel{level}-deep", f"from {dots}deep import z, w"),
+                  (f"rel{level}-star", f"from {dots}pkg import *"), (f"rel{level}-star-dot", f"from {dots} import *")]
     return forms
 
 
@@ -602,6 +603,14 @@ def run(ctx: Ctx, aspect="C02"):
 
         s = Stream(ctx, "non-default options: internal imports under externals included / external exclusion patterns (relational)")
         c10.stream_cases(ctx, s, ctx.size(300, 3000), ctx.rng("c02-options"))
+        s.finish()
+    if aspect == "C02" and not ctx.violations:
+        # ... nor to scans without a level limit: with level_limit the import edges are those of the full scan between the
+        # truncated names (stream shared with C09; module_path at the root, one and several directories below it)
+        from . import c09
+
+        s = Stream(ctx, "level-limited scans: import edges = edges of the full scan between truncated names (shared with C09)")
+        c09.scan_stream(ctx, s, ctx.size(200, 4000), ctx.rng("c02-limit"))
         s.finish()
     if aspect == "C04" and not ctx.violations:
         s = Stream(ctx, "rules about 'sub modules of X' evaluated on scanned architectures (sub modules = dotted extensions)")
